@@ -27,6 +27,8 @@ def run(ctx):
     r35(ctx, core)
     r36(ctx, core)
     c11.r114(ctx)
+    c11.r116(ctx)
+    r38(ctx, core)
     m = ctx.repo['cencoding']
     # R3.4: only the decoders matter for reading foreign files
     saved = c11.LOOPS
@@ -36,6 +38,8 @@ def run(ctx):
     finally:
         c11.LOOPS = saved
     c11.r111(ctx, m)
+    from . import callsigs as _cs
+    _cs.general_rules(ctx, 'R3', ['core', 'encoding', 'api.ParquetFile.read_row_group_file'])
 
 
 def _chain_ends_in_raise(first_if):
@@ -233,3 +237,38 @@ def r36(ctx, core):
     ctx.ob('R3.6', 'core.read_data_page_v2:value-size-excludes-both-level-blocks',
            len(size) == 1 and norm(size[0].value) == 'ph.compressed_page_size - data_header2.repetition_levels_byte_length - data_header2.definition_levels_byte_length',
            norm(size[0]) if size else '', core.loc(g))
+
+
+def r38(ctx, core):
+    """the nulls arm and the no-nulls arm of read_col decide 'dictionary indices / plain values / codes' alike"""
+    f = core.func('read_col')
+    arms = {}
+    for s in iter_child_stmts(f.body):
+        if isinstance(s, ast.If) and norm(s.test) == 'rep is not None' and s.orelse and isinstance(s.orelse[0], ast.If) \
+                and norm(s.orelse[0].test) == 'defi is not None':
+            arms['nulls'] = s.orelse[0].body
+            arms['no-nulls'] = s.orelse[0].orelse
+    ok = len(arms) == 2
+    d = 'arms not found'
+    if ok:
+        def chain_tests(body):
+            out = []
+            for st in body:
+                if isinstance(st, ast.If) and 'use_cat' in norm(st.test):
+                    node = st
+                    while True:
+                        out.append(norm(node.test))
+                        if len(node.orelse) == 1 and isinstance(node.orelse[0], ast.If):
+                            node = node.orelse[0]
+                        else:
+                            break
+            return out
+        a, b = chain_tests(arms['nulls']), chain_tests(arms['no-nulls'])
+        d = 'nulls arm %s | no-nulls arm %s' % (a, b)
+        ok = a == ['d and (not use_cat)', 'not use_cat'] and [t for t in b if t != 'use_cat and (not d)'] == a
+    ctx.ob('R3.8', 'core.read_col:nulls-and-no-nulls-arms-dispatch-on-the-page-encoding-alike', ok,
+           'whether the page holds dictionary indices is decided by the page\'s own encoding flag `d` in both arms (a chunk '
+           'may fall back from dictionary to plain pages): %s' % d, core.loc(f))
+    dd = [s for s in iter_child_stmts(f.body) if isinstance(s, ast.Assign) and norm(s.targets[0]) == 'd']
+    ctx.ob('R3.8', 'core.read_col:d-is-this-pages-encoding',
+           len(dd) == 1 and norm(dd[0].value).startswith('ph.data_page_header.encoding in ['), norm(dd[0])[:100] if dd else '', core.loc(f))
